@@ -227,3 +227,86 @@ Example C06_kernel_runs :
     [AVI 2; AVI 2; AVArrI FLOWDIRCODE; AVArrI [1; 0; 0; 0]; AVI 2; AVArrI [0; 1]; AVArrI [7; 7]]
   = Ok (RI 0, [VArrI FLOWDIRCODE; VArrI [1; 0; 0; 0]; VArrI [0; 1]; VArrI [1; -2]]).
 Proof. vm_compute. reflexivity. Qed.
+
+(* ================================================================== *)
+(* Flow-path lengths and river traces on the REGENERATED program      *)
+(* (MiniC translation of src/hydrodiy/gis/c_catchment.c, Gen/KernelsAst.v). *)
+(* ================================================================== *)
+From Coq Require Import String Lia PrimFloat.
+From Hy Require Import Base.Num Base.MiniC Gen.KernelsAst Gen.Consts Model.Grid Model.Catchment.
+From Hy Require Proofs.RefineRiver.
+Import ListNotations.
+Open Scope string_scope.
+Open Scope list_scope.
+Open Scope Z_scope.
+
+(* c_delineate_flowpathlengths_in_catchment = the model [flowpaths]: any arithmetic with (double)0 = 0, any grid shape, any cell list (valid or not), any outlet; fp_flat lays each row (cell, downstream end, length) out as three doubles *)
+Theorem C06_kernel_flowpathlengths_refines_model :
+  forall (T : Type) (N : NumOps T) (X : NumLit T) (nrows ncols : Z) 
+         (fd area : list Z) (outlet : Z) (junk : list T) (n : nat),
+       nofZ N 0 = n0 N ->
+       nrows * ncols <= Z.of_nat (Datatypes.length fd) ->
+       Datatypes.length junk = (3 * Datatypes.length area)%nat ->
+       (Nat.max (Datatypes.length area) 12 < n)%nat ->
+       exec_fun N X program (S n) "c_delineate_flowpathlengths_in_catchment"
+         [AVI nrows; AVI ncols; AVArrI FLOWDIRCODE; AVArrI fd; AVI (MiniC.zlen area); 
+          AVArrI area; AVI outlet; AVArrF junk] =
+       Ok
+         (RI 0,
+          [VArrI FLOWDIRCODE; VArrI fd; VArrI area;
+           VArrF (RefineRiver.fp_flat N (flowpaths N nrows ncols fd outlet area))]).
+Proof. exact @RefineRiver.refine_delineate_flowpathlengths_in_catchment. Qed.
+Print Assumptions C06_kernel_flowpathlengths_refines_model.
+
+(* c_delineate_river = the model [river]: rows written and their count, the rest of the buffers untouched; a positive code and untouched buffers for an invalid start cell *)
+Theorem C06_kernel_river_refines_model :
+  forall (T : Type) (N : NumOps T) (X : NumLit T) (nrows ncols : Z) 
+         (xll yll csz : T) (fd : list Z) (start np0 : Z) (cjunk : list Z) 
+         (djunk : list T) (n : nat),
+       nofZ N 0 = n0 N ->
+       nlit X 0.5 1 2 = nhalf N ->
+       nrows * ncols <= Z.of_nat (Datatypes.length fd) ->
+       Datatypes.length djunk = (5 * Datatypes.length cjunk)%nat ->
+       (Nat.max (Datatypes.length cjunk) 12 < n)%nat ->
+       match river N nrows ncols xll yll csz fd start (MiniC.zlen cjunk) with
+       | Some rows =>
+           exec_fun N X program (S n) "c_delineate_river"
+             [AVI nrows; AVI ncols; AVF xll; AVF yll; AVF csz; AVArrI FLOWDIRCODE; 
+              AVArrI fd; AVI start; AVI (MiniC.zlen cjunk); AVArrI [np0]; 
+              AVArrI cjunk; AVArrF djunk] =
+           Ok
+             (RI 0,
+              [VArrI FLOWDIRCODE; VArrI fd; VArrI [Z.of_nat (Datatypes.length rows)];
+               VArrI (map RefineRiver.rv_cell rows ++ skipn (Datatypes.length rows) cjunk);
+               VArrF (flat_map RefineRiver.rv_data rows ++ skipn (5 * Datatypes.length rows) djunk)])
+       | None =>
+           exists code : Z,
+             0 < code /\
+             exec_fun N X program (S n) "c_delineate_river"
+               [AVI nrows; AVI ncols; AVF xll; AVF yll; AVF csz; AVArrI FLOWDIRCODE; 
+                AVArrI fd; AVI start; AVI (MiniC.zlen cjunk); AVArrI [np0]; 
+                AVArrI cjunk; AVArrF djunk] =
+             Ok (RI code, [VArrI FLOWDIRCODE; VArrI fd; VArrI [np0]; VArrI cjunk; VArrF djunk])
+       end.
+Proof. exact @RefineRiver.refine_delineate_river. Qed.
+Print Assumptions C06_kernel_river_refines_model.
+
+(* the same for an arbitrary 3x3 direction-code table *)
+Theorem C06_kernel_flowpathlengths_any_code_table :
+  forall (T : Type) (N : NumOps T) (X : NumLit T) (nrows ncols : Z) 
+         (codes fd area : list Z) (outlet : Z) (junk : list T) (n : nat),
+       nofZ N 0 = n0 N ->
+       Datatypes.length codes = 9%nat ->
+       nrows * ncols <= Z.of_nat (Datatypes.length fd) ->
+       Datatypes.length junk = (3 * Datatypes.length area)%nat ->
+       (Nat.max (Datatypes.length area) 12 < n)%nat ->
+       exec_fun N X program (S n) "c_delineate_flowpathlengths_in_catchment"
+         [AVI nrows; AVI ncols; AVArrI codes; AVArrI fd; AVI (MiniC.zlen area); 
+          AVArrI area; AVI outlet; AVArrF junk] =
+       Ok
+         (RI 0,
+          [VArrI codes; VArrI fd; VArrI area;
+           VArrF
+             (RefineRiver.fp_flat N (RefineRiver.flowpaths_with N codes nrows ncols fd outlet area))]).
+Proof. exact @RefineRiver.refine_delineate_flowpathlengths_in_catchment_with. Qed.
+Print Assumptions C06_kernel_flowpathlengths_any_code_table.
